@@ -265,7 +265,16 @@ func scaleStreams(c *Config) {
 	for _, k := range []int{98, 99, 100, 199, 200} {
 		cases = append(cases, sc{fmt.Sprintf("plan-%d", k+1), stamp(c, linearShape(k), tAsc), 1 + r.Intn(3), chain3(c), none, false})
 	}
+	// machine limits 2^7, 2^8, 2^9 of the commit index / plan position (one item: short case lines, cheap to shrink)
+	one := func() []itemSpec { return []itemSpec{{Name: 0, Provides: []int{3}, Leaf: true, Copy: r.Intn(2) == 0, Hib: r.Intn(2) == 0}} }
+	for _, k := range []int{127, 128, 129, 255, 256, 257, 511, 512, 513} {
+		cases = append(cases, sc{fmt.Sprintf("lin-%d", k), stamp(c, linearShape(k), tAsc), r.Intn(2), one(), none, false})
+	}
 	if big {
+		// 2^15 and 2^16 commit steps
+		cases = append(cases,
+			sc{"lin-32769", stamp(c, linearShape(32769), tAsc), 0, one(), none, false},
+			sc{"lin-65537", stamp(c, linearShape(65537), tAsc), 1, one(), none, false})
 		cases = append(cases,
 			sc{"items-30-long", stamp(c, periodShape(3000, 17, 2), tRand), 2, rich(30, true), none, false},
 			sc{"wide-200", stamp(c, wideShape(n, 200), tRand), 5, chain3(c), none, false},
